@@ -100,7 +100,7 @@ class NestedParent(WrappingQuery):
         if p is qcore.NullQuery or q is qcore.NullQuery:
             return qcore.NullQuery
 
-        return self.__class__(p, q)
+        return self.__class__(p, q, self.per_parent_limit, self.score_fn)
 
     def _rewrap(self, child):
         return self.__class__(self.parents, child, self.per_parent_limit,
